@@ -124,7 +124,7 @@ type srvWorld struct {
 func (w *srvWorld) Start(x *h.Exec) {
 	w.x = x
 	sc := w.sc
-	w.be = &h.Backend{LMTPSess: sc.LMTP, ByContent: sc.ByContent}
+	w.be = &h.Backend{LMTPSess: sc.LMTP, ByContent: sc.ByContent, ConcurrentClose: true}
 	gateSet := map[string]bool{}
 	for _, g := range sc.Gates {
 		gateSet[g] = true
